@@ -44,6 +44,10 @@ func d1Spaces(r *Run, oracles []string, bias string) (closure []Spec, traj []Spe
 		closure = append(closure,
 			Spec{Name: "arr-compact-T256", Kind: "arr-small", T: 256, L: 3, Classes: []string{"Mc:t,u5,s10", "t"}, Oracles: oracles},
 			Spec{Name: "map-compact-T256", Kind: "map-small", T: 256, Keys: 3, Classes: []string{"Mc:t,u5,s10", "t"}, Oracles: oracles},
+			// composite children in a container that spans several data slabs (the compact form in a slab that
+			// has a sibling link / is not the root)
+			Spec{Name: "arr-compact-split-T256", Kind: "arr-small", T: 256, L: 5, Classes: []string{"Mc:t,u5", "limA"}, Oracles: oracles},
+			Spec{Name: "map-compact-split-T256", Kind: "map-small", T: 256, Keys: 4, Classes: []string{"Mc:t,u5", "limM"}, Oracles: oracles},
 		)
 	}
 	if r.Thorough() {
@@ -81,6 +85,15 @@ func d1Spaces(r *Run, oracles []string, bias string) (closure []Spec, traj []Spe
 		for _, sc := range []string{"map-drain-front", "map-drain-back", "map-shrink-overwrite"} {
 			traj = append(traj, TrajSpecs(r.ID, sc, 2*mmax-20, mmax-9, 2*mmax-19, step, 1, T, mcl, tor)...)
 		}
+		// nested children (inlined, standalone, wrapped, composite/compact of two types) spread over every
+		// slab of multi-level parents: every seed state and its depth-1 neighbourhood
+		kstep := 2 * step
+		for _, sc := range []string{"arr-kids", "arr-kids-compact"} {
+			traj = append(traj, TrajSpecs(r.ID, sc, 64, 3, 65, kstep, 1, T, acl, tor)...)
+		}
+		for _, sc := range []string{"map-kids", "map-kids-compact"} {
+			traj = append(traj, TrajSpecs(r.ID, sc, 64, 3, 65, kstep, 1, T, mcl, tor)...)
+		}
 	}
 	return closure, traj
 }
@@ -112,6 +125,23 @@ func nestedFor(r *Run, oracles []string) []Spec {
 	return out
 }
 
+// bulkBuiltArgs: containers produced by the bulk constructors (same driver as C17): all element streams up
+// to length 7, every length up to 70 with all tails of 3, maps built from source maps up to 40 entries.
+func bulkBuiltArgs() []any {
+	var args []any
+	args = append(args, c17Arg{T: 256, Mode: "arr-streams", Prefix: nil, MaxLen: 1})
+	for _, a := range c17Classes {
+		for _, b := range c17Classes {
+			args = append(args, c17Arg{T: 256, Mode: "arr-streams", Prefix: []string{a, b}, MaxLen: 7})
+		}
+	}
+	for sh := 0; sh < 16; sh++ {
+		args = append(args, c17Arg{T: 256, Mode: "arr-tails", From: 8, To: 70, Tail: 3, Shard: sh, Shards: 16})
+		args = append(args, c17Arg{T: 256, Mode: "map-batch", From: 0, To: 40, Shard: sh, Shards: 16})
+	}
+	return args
+}
+
 func d1Assumptions() []string {
 	return []string{
 		"closure results hold for every history that stays inside the bounded universe (element/key bound, value size classes); trajectory neighbourhoods are depth-bounded around cold-started seed states",
@@ -132,17 +162,7 @@ func init() {
 		r.ExploreSpecs(nestedFor(r, or))
 		// containers produced by the bulk constructors are reachable containers too: all element streams
 		// up to length 7, every length with all tails, maps built from sources (same driver as C17)
-		var args []any
-		args = append(args, c17Arg{T: 256, Mode: "arr-streams", Prefix: nil, MaxLen: 1})
-		for _, a := range c17Classes {
-			for _, b := range c17Classes {
-				args = append(args, c17Arg{T: 256, Mode: "arr-streams", Prefix: []string{a, b}, MaxLen: 7})
-			}
-		}
-		for sh := 0; sh < 16; sh++ {
-			args = append(args, c17Arg{T: 256, Mode: "arr-tails", From: 8, To: 70, Tail: 3, Shard: sh, Shards: 16})
-			args = append(args, c17Arg{T: 256, Mode: "map-batch", From: 0, To: 40, Shard: sh, Shards: 16})
-		}
+		args := bulkBuiltArgs()
 		r.RunTaskGroup("bulk-built arrays and maps (structure)", "c17", args)
 		sweepSlabSizes(r)
 	}})
@@ -155,6 +175,9 @@ func init() {
 		r.ExploreSpecs(tr)
 		r.ExploreSpecs(collSpecs(r, or, []string{"t", "s60", "A:t"}))
 		r.ExploreSpecs(nestedFor(r, append([]string{"events"}, or...)))
+		// containers produced by the bulk constructors report sizes too (root/non-root prefix conversion
+		// when the built leaves are merged into a root)
+		r.RunTaskGroup("bulk-built arrays and maps (sizes)", "c17", bulkBuiltArgs())
 	}})
 	RegisterCheck(&CheckDef{ID: "C07", Level: "model_checking", Run: func(r *Run) {
 		r.Rule = "explicit-state BFS over array/map/nested spaces; every register produced by a commit after every transition is decoded and re-encoded (byte identity), its decoded content is compared element-by-element with the in-memory slab (except compact maps), and the three header flags are compared with the harness's own reading of the content"
